@@ -53,6 +53,22 @@ def only_unresolved_differs(s0, s1):
     return True
 
 
+def local_redefinition_only(d0, d1, exporter, newname):
+    """the two dumps differ only in the consumer's classes, and only in that a base is the exporter's LOCAL definition in one and
+    the moved object (renamed '<name> 0' when the local definition superseded it) in the other"""
+    local, moved_name = "%s.%s" % (exporter, newname), "%s.%s 0" % (exporter, newname)
+    for k in set(d0) | set(d1):
+        a, b = d0.get(k), d1.get(k)
+        if a == b:
+            continue
+        if a is None or b is None or not k.startswith("pkg.user."):
+            return False
+        norm = lambda rec: repr(rec).replace(moved_name, local)
+        if norm(a) != norm(b):
+            return False
+    return True
+
+
 def check_schedule(kw, si, shadow=False):
     sources, exporter, newname = T.gen(shadow=shadow, **kw)
     scheds = T.schedules(sources)
@@ -81,6 +97,13 @@ def check_schedule(kw, si, shadow=False):
              base={k: d0.get(k) for k in diff[:3]}, other={k: d1.get(k) for k in diff[:3]})
         return False
     # (without a re-export the consumer forms 'new' and 'old' are the same text: from pkg._impl import X as B)
+    if moved and kw["local_def"] == "after" and kw["consumer"] in ("old", "both", "modalias", "modattr", "modalias_root") and local_redefinition_only(d0, d1, exporter, newname):
+        key = "C06:re-exported-name-redefined-locally-afterwards-consumer-naming-the-defining-module-gets-the-local-class-or-the-moved-one-depending-on-the-order"
+        if known(key):
+            return True
+        note(why="documented model depends on the processing order", key=key, shape=kw, order0=scheds[0], order=scheds[si], differing=diff[:6],
+             base={k: d0.get(k) for k in diff[:3]}, other={k: d1.get(k) for k in diff[:3]})
+        return False
     if shadow and kw["cycle"] and (kw["consumer"] in ("modalias", "modattr", "modalias_root", "old", "both") or (exporter is None and kw["consumer"] == "new")):
         key = "C06:import-cycle-while-a-star-imported-name-is-not-yet-overridden-base-resolves-to-the-shadowed-object"
         if known(key):
@@ -205,14 +228,14 @@ from pydoctor import model  # noqa: E402
 @harness(
     parts=lambda: [[a, b] for a in range(NCA) for b in range(NCA)], timeout=(240, 1200), cls="E", tracing="concrete-after-choice", twin="first",
     code=["pydoctor.model.defaultPostProcess", "_inherits_instance_variable_kind", "Inheritable.docsources", "Class._init_mro / compute_mro / init_finalbaseobjects", "pydoctor.astbuilder.ModuleVistor.visit_Import/visit_ImportFrom (on-demand processing)", "System.process / processModule"],
-    bounds={"quick": "a three-class chain A <- B <- C over three sibling modules; attribute v per class absent / class variable / instance variable / each with docstring / property (216 combinations); import form of each base plain / from / through the package (9); all 6 analysis orders; class and method docstrings present on a solver-chosen subset (quick: one fixed subset, thorough: all 64)",
-            "thorough": "same x every subset of docstrings"},
+    bounds={"quick": "a three-class chain A <- B <- C over three sibling modules; attribute v per class absent / class variable / instance variable / each with docstring / property (216 combinations); import form of each base plain / from / through the package (9); all 6 analysis orders; class and method docstrings present on a subset (quick: one fixed subset, thorough: 8 subsets)",
+            "thorough": "same x 8 subsets of docstrings"},
     outside="chains longer than three; diamonds (C05 decides linearisations); several roots",
 )
 def h_chain_schedule(a2: int, i0: int, i1: int, docs: int, si: int) -> bool:
     """
     pre: 0 <= a2 < NCA and 0 <= i0 <= 2 and 0 <= i1 <= 2 and 0 <= docs < 64 and 1 <= si <= 5
-    pre: FULLC or docs == 9
+    pre: (FULLC and docs % 9 == 0) or docs == 9
     post: _
     """
     a0, a1 = PART if PART is not None else [2, 1]
